@@ -253,3 +253,46 @@ def _spwr(pm, v):
 @reg("common.cprNL")
 def _nl(pm, v):
     return enc.res(pm.common.cprNL(v["x"]))
+
+
+# ---- Comm-B (C11, C12) ----
+COMMB_DEN = {
+    "selalt40mcp": 1, "selalt40fms": 1, "alt40mcp": 1, "alt40fms": 1, "p40baro": 10, "wind44": [1, 64], "temp44": [8, 8],
+    "p44": 1, "hum44": 16, "turb44": 1, "turb45": 1, "ws45": 1, "mb45": 1, "ic45": 1, "wv45": 1, "temp45": 4, "p45": 1,
+    "rh45": 1, "roll50": 256, "trk50": 512, "gs50": 1, "rtrk50": 32, "tas50": 1, "hdg53": 512, "ias53": 1, "mach53": 125,
+    "tas53": 2, "vr53": 1, "hdg60": 512, "ias60": 1, "mach60": 250, "vr60baro": 1, "vr60ins": 1, "ovc10": 1, "cap17": None,
+    "is10": None, "is17": None, "is20": None, "is30": None, "is40": None, "is44": None, "is45": None, "is50": None,
+    "is53": None, "is60": None,
+}
+
+
+def _commb_fn(pm, name):
+    if name.endswith("53"):
+        from pyModeS.decoder.bds import bds53
+        return getattr(bds53, name)
+    return getattr(pm.commb, name)
+
+
+def _mk_commb(name):
+    def f(pm, v):
+        import warnings
+        with warnings.catch_warnings():
+            warnings.simplefilter("ignore")
+            return enc.res(_commb_fn(pm, name)(hx(v)), COMMB_DEN[name])
+    return f
+
+
+for _n in COMMB_DEN:
+    CALLS["commb." + _n] = _mk_commb(_n)
+
+
+@reg("bds.infer")
+def _infer(pm, v):
+    return enc.res(pm.bds.infer(hx(v), mrar=bool(v.get("mrar", 0))))
+
+
+@reg("bds.is50or60")
+def _is5060(pm, v):
+    spd = v["spd"][0] / v["spd"][1]
+    trk = v["trk"][0] / v["trk"][1]
+    return enc.res(pm.bds.is50or60(hx(v), spd, trk, 0))
